@@ -336,6 +336,17 @@ static void ftrie_case(Rng & rng, const F::Factors & sp, int maxOps) {
     l << "end"; l.emit();
 }
 
+// `sort()` on a FilterMap::filter result (what the repository's tests do before comparing): its own `srt` line
+template <class R>
+static void emitSorted(R r, const std::vector<size_t> & cont) {
+    std::vector<size_t> ids, ids2, vals;
+    for (auto it = r.begin(); it != r.end(); ++it) ids.push_back(it.toContainerId());
+    r.sort();
+    for (auto it = r.begin(); it != r.end(); ++it) { ids2.push_back(it.toContainerId()); vals.push_back(*it); }
+    Line l; l << "C20" << "srt"; l.nats(ids); l.nats(cont); l << "|"; l.nats(ids2); l.nats(vals); l.emit();
+    std::printf("#stat sort_filter_result 1\n");
+}
+
 template <class FM, class R>
 static void emitIterable(Line & l, R && r) {
     std::vector<size_t> ids, items;
@@ -412,6 +423,10 @@ static void indexmap_case(Rng & rng) {
     emitIterWalk("ref", ref, cont);
     AIToolbox::IndexMap<std::vector<size_t>, const std::vector<size_t>> cown(ids, cont);
     emitIterWalk("cown", cown, cont);
+    if (N >= 3) {   // the initializer_list deduction guide
+        AIToolbox::IndexMap il({N - 1, (size_t)0, N - 2, (size_t)0}, cont);
+        emitIterWalk("ilist", il, cont);
+    }
 }
 
 
@@ -523,6 +538,7 @@ static void fmap_ftrie_case(Rng & rng, const F::Factors & sp, int maxOps) {
             for (size_t i = 0; i < len; ++i) f[i] = rng.below(sp[i]);
             l << "flf"; l.nats(f) << (size_t)0;
             if (rng.coin()) emitIterable<FM>(l, fm.filter(f)); else emitIterable<FM>(l, static_cast<const FM &>(fm).filter(f));
+            if (rng.coin(1, 3)) emitSorted(fm.filter(f), fm.getContainer());
         } else {
             l << "siz" << fm.size() << "siz" << fm.getTrie().size();
         }
@@ -614,6 +630,7 @@ static void skipmap_case(Rng & rng) {
     { AIToolbox::IndexSkipMap<std::vector<size_t>, std::vector<size_t>> m(ids, cont); emitSkipWalk("own", m, ids, cont, c); }
     { AIToolbox::IndexSkipMap<std::vector<size_t>*, std::vector<size_t>> m(&ids, cont); emitSkipWalk("ref", m, ids, cont, !c); }
     { AIToolbox::IndexSkipMap<std::vector<size_t>*, const std::vector<size_t>> m(&ids, cont); emitSkipWalk("cref", m, ids, cont, c); }
+    if (N >= 3) { AIToolbox::IndexSkipMap m({(size_t)0, N - 2}, cont); emitSkipWalk("ilist", m, std::vector<size_t>{0, N - 2}, cont, c); }
 }
 
 // IndexMap::sort(): `C20 srt <ids> <cont> | ids' values'`
